@@ -49,7 +49,92 @@ let s_mic g _obs =
   let m = data_mic e k (getbool g "up") (n_of_hex (g "addr")) (getn g "fcnt") (getb g "msg") in
   (hex_of_n m, "ok")
 
+(* ---- C13 ---- *)
+let show_outcome show = function
+  | Ok a -> "ok:" ^ show a
+  | Err e -> "err" ^ string_of_int (int_of_n (err_code e))
+  | Panic -> "PANIC"
+let nlist_of_string s = List.map (fun x -> n_of_int (int_of_string x)) (split_list s)
+let string_of_nlist l = "[" ^ String.concat "," (List.map (fun x -> string_of_int (int_of_n x)) l) ^ "]"
+
+let s_maccmd g obs =
+  let up = getbool g "up" and cid = getn g "cid" in
+  let vs = nlist_of_string (g "fields") in
+  let buflen = geti g "buflen" and pos = geti g "pos" and rest = getb g "rest" in
+  let c = { c_up = up; c_cid = cid; c_fields = vs } in
+  let enc = cmd_encode (nat_of_int buflen) (nat_of_int pos) c in
+  let encs = show_outcome hex_of_bytes enc in
+  let decs = match enc with
+    | Ok bs ->
+      (match new_cmd up cid with
+       | None -> "nocmd"
+       | Some z ->
+         let buf = bs @ rest in
+         let dl = pos + List.length buf in
+         show_outcome (fun c' -> string_of_nlist c'.c_fields ^ ":" ^ string_of_int (int_of_nat (cmd_len c')))
+           (cmd_decode (nat_of_int dl) (nat_of_int pos) z buf))
+    | _ -> "-" in
+  let model = encs ^ " " ^ decs in
+  (* oracle: the specified layout, applied to the implementation's own output *)
+  let verdict =
+    match layout_payload up cid vs with
+    | None -> "ok"   (* some value does not fit its field: the specification does not say *)
+    | Some p ->
+      let want = hex_of_bytes (cid :: p) in
+      let l = 1 + List.length p in
+      if geti g "len" <> l then "bad:length"
+      else if geti g "id" <> int_of_n cid || getbool g "cmdup" <> up then "bad:identity"
+      else
+      (match String.split_on_char ' ' obs with
+       | [e; d] ->
+         let fits = buflen > pos + l in
+         if fits && e <> "ok:" ^ want then "bad:layout"
+         else if (not fits) && String.length e >= 3 && String.sub e 0 3 = "ok:" && e <> "ok:" ^ want then "bad:layout"
+         else if String.length e >= 3 && String.sub e 0 3 = "ok:" && List.length rest >= 1
+                 && d <> "ok:" ^ string_of_nlist vs ^ ":" ^ string_of_int l then "bad:roundtrip"
+         else "ok"
+       | _ -> "bad:shape") in
+  (model, verdict)
+
+let parse_set_ops s =
+  List.map (fun o ->
+    match String.split_on_char ':' o with
+    | ["r"; cid] -> `Remove (n_of_int (int_of_string cid))
+    | ["a"; up; cid; vs] ->
+      let vl = if vs = "" then [] else List.map (fun x -> n_of_int (int_of_string x)) (String.split_on_char '/' vs) in
+      `Add { c_up = (up = "1"); c_cid = n_of_int (int_of_string cid); c_fields = vl }
+    | _ -> failwith ("bad op " ^ o)) (if s = "" then [] else String.split_on_char ',' s)
+
+let s_macset g obs =
+  let msg = getn g "msg" and max = geti g "max" in
+  let ops = parse_set_ops (g "ops") in
+  let s0 = new_set msg (z_of_int max) in
+  let (s, res) = List.fold_left (fun (s, acc) o ->
+    match o with
+    | `Remove cid -> (set_remove s cid, acc ^ "r")
+    | `Add c -> let (s', ok) = set_add s c in (s', acc ^ (if ok then "1" else "0"))) (s0, "") ops in
+  let lst = String.concat "," (List.map (fun c -> (if c.c_up then "1" else "0") ^ ":" ^ string_of_int (int_of_n c.c_cid)) (set_list s)) in
+  let enc = show_outcome hex_of_bytes (set_encode (nat_of_int 300) O s) in
+  let model = Printf.sprintf "%s [%s] %d %d %s" res lst (int_of_nat (set_encoded_length s)) (int_of_nat (set_size s)) enc in
+  let verdict =
+    match String.split_on_char ' ' obs with
+    | [_; l; el; _; e] ->
+      let l = String.sub l 1 (String.length l - 2) in
+      let items = if l = "" then [] else List.map (fun x -> match String.split_on_char ':' x with [u; c] -> (u = "1", int_of_string c) | _ -> failwith "item") (String.split_on_char ',' l) in
+      let rec sorted = function a :: (b :: _ as t) -> snd a < snd b && sorted t | _ -> true in
+      let up = mtype_uplink msg in
+      let el = int_of_string el in
+      if not (sorted items) then "bad:set-order"
+      else if List.exists (fun (u, _) -> u <> up) items then "bad:set-direction"
+      else if el > (if max < 0 then 0 else max) then "bad:set-limit"
+      else if String.length e >= 3 && String.sub e 0 3 = "ok:" && (String.length e - 3) / 2 <> el then "bad:set-length"
+      else "ok"
+    | _ -> "bad:shape" in
+  (model, verdict)
+
 let register_all register =
+  register "maccmd" s_maccmd;
+  register "macset" s_macset;
   register "aes" s_aes;
   register "cmac" s_cmac;
   register "cipher" s_cipher;
